@@ -96,6 +96,16 @@ CLAIMED["C16"] = dict(
    note="Partial by nature: goroutine scheduling, channels, select and context are the model's primitives (trusted); the theorem is about the protocol built from them. `select` may pick either ready case, so the comparison is set membership, not a line diff; 'context still live' is sampled.",
    technique="Lean 4 proof (kernel-checked inductive invariant of a finite transition system, lifted to all schedules) + gated-member schedule enumeration",
    design="§5 C16")
+CLAIMED["C10"] = dict(
+   text="Lean 4 theorems over a model of the auth transport (per-host state: challenge, cached scoped tokens with expiry, refresh token, basic credentials; logical time; the two critical sections setAuthorization and setAuthorizationFromChallenge; token acquisition with the 401 fallback and the POST/GET fallback) against a universally quantified environment (registry and token server may answer anything): an invariant J preserved by each section and along every history gives bearer_provenance (a presented token was delivered to this host's state or configured for it), bearer_fresh (>= 1 s of life when taken from the cache), bearer_covers (cached: recorded scope contains the required scope, via C09's contains_iff_subset; fresh: contains the challenge scope), cache_hit_is_silent, token_request_scope/text (challenge ∪ required ∪ wanted; the challenge's own text byte for byte when the union adds nothing, via union_noop_returns_receiver). Correspondence: a fake registry + token server as the underlying RoundTripper, generated multi-host request sequences over a scope lattice with every credential configuration and token-server behaviour, diffed message by message with the model; provenance/freshness/coverage oracles on the request log.",
+   note="Trusted: Lean kernel; net/http, net/url, JSON and http.Client redirect handling are parameters; time.Now is read once per call in the model (real sleeps with 2-3 s lifetimes only in the thorough tier); atomicity of the two sections under registry.mu and sync.Once is assumed, so per-section theorems hold for every interleaving of sections.",
+   technique="Lean 4 proof (inductive invariant over critical sections against an arbitrary environment) + differential against a scripted registry/token server",
+   design="§5 C10")
+CLAIMED["C11"] = dict(
+   text="Lean 4 theorems over the same auth-transport model with secrets as atoms tagged by host: host_isolation (every message a call produces carries only its own host's secrets and goes to its own host or to the realm that host's challenge named) for all call sequences; password_confined, refresh_confined, never_basic_before_challenge, basic_only_against_basic_challenge, attempts_le_two, fresh_401_becomes_403 (exact iff); a byte-level model of the RFC 7235 challenge parser with explicit buffer bounds: parse_total (never panics), challenge_select (Basic preferred, unknown schemes ignored); source-shape obligations regenerated from auth.go/challenge.go. Correspondence: generated conversations and fault sequences over >= 2 hosts with distinct secrets, challenge headers of every shape, token servers failing in every way, failing config lookups, bodies with/without GetBody; every request reaching the underlying transport is logged and scanned for every secret; request-unmodified and body-closed oracles.",
+   note="Trusted: Lean kernel; 'request unmodified' and 'body closed on every path' are oracle-only (the model has no request object; the Clone/needBodyClose skeleton is pinned by a shape obligation); redirects followed by http.Client for token requests are net/http's.",
+   technique="Lean 4 proof (information-flow invariant on per-host state; total byte-level challenge parser) + differential and secret-scanning oracles",
+   design="§5 C11")
 NOT_YET = {}
 
 def main():
